@@ -264,6 +264,11 @@ def Canonical (pda : List Key → Key → Key) : Ix → Prop
         ∧ nestedAta = pda (refAtaSeeds ownerAta tp nestedMint) refAtaId
   | _ => True
 
+/-- The one bound instruction whose metas differ from the reference on the current tree (finding C16-1). -/
+def isRecoverNested : Ix → Bool
+  | .ataRecoverNested .. => true
+  | _ => false
+
 /-! ## Framework side (interprets the generated tables) -/
 
 /-- Which generated enum variant an `Ix` constructor is built through (the harness builds it through the
@@ -434,7 +439,7 @@ def borsh : ArgTy → Option Val → List Nat
 /-- `star_frame_instruction_data`: `bytes_of(&DISCRIMINANT) ++ borsh(payload)`. -/
 def fwData (ix : Ix) : List Nat :=
   leN ix.tag.reprBytes ix.tag.disc
-    ++ ix.tag.fields.flatMap (fun f => borsh f.2 ((fwArgs ix).lookup f.1))
+    ++ ix.tag.fields.flatMap (fun f => borsh f.2 (assoc f.1 (fwArgs ix)))
 
 /-- `ClientAccountSet::extend_account_metas` of one account-struct field. -/
 def metasOf : AcctTy → Option AVal → List Meta
@@ -446,7 +451,7 @@ def metasOf : AcctTy → Option AVal → List Meta
 
 /-- The derived `extend_account_metas` of the account struct: fields in declared order. -/
 def fwMetas (ix : Ix) : List Meta :=
-  ix.tag.accounts.flatMap (fun a => metasOf a.2 ((fwAccts ix).lookup a.1))
+  ix.tag.accounts.flatMap (fun a => metasOf a.2 (assoc a.1 (fwAccts ix)))
 
 def fwProgram (ix : Ix) : Key := progId ix.tag.prog
 
